@@ -606,7 +606,7 @@ def _parse_assignment_text(text):
     t = re.match(r"\s*(\w+)\(([\w,]*)\)", lhs)
     return (t.group(1), tuple(_split(t.group(2)))), [(n, tuple(_split(ix_))) for n, ix_ in occ]
 
-def call_scenario(text, participant_order=0, evaluate=None):
+def call_scenario(text, participant_order=0, evaluate=None, target_first=True):
     from . import symeval as S
 
     (tname, tix), occ = _parse_assignment_text(text)
@@ -625,7 +625,7 @@ def call_scenario(text, participant_order=0, evaluate=None):
         parts = {i: v[1:] + v[:1] for i, v in parts.items()}
     in_formats = {n: S.make_format((S.DENSE,) * o, tuple(range(o))) for n, o in orders.items()}
     out_format = S.make_format((S.COMPRESSED,) * len(tix), tuple(range(len(tix))))
-    formats = {tname: out_format, **in_formats}
+    formats = {tname: out_format, **in_formats} if target_first else {**in_formats, tname: out_format}
 
     def bind(*args, **kwargs):
         if args or set(kwargs) != set(in_formats):
